@@ -2,7 +2,9 @@
 from .. import x as X
 
 # includes pairs where one name is another one plus the filename separator (x / x_y, rig_b vs task rig, Al / Al_1)
-NAME_POOL = ["bob", "bob-x", "bob.x", "bob+x", "alice", "Al", "Al_1", "x", "x_y", "dagger", "o0", "Zed", "a", "rig_b", "rig"]
+# ... and names that are words of another level's vocabulary, fixed folder names of the layout, digits only, upper case
+NAME_POOL = ["bob", "bob-x", "bob.x", "bob+x", "alice", "Al", "Al_1", "x", "x_y", "dagger", "o0", "Zed", "a", "rig_b", "rig",
+             "char", "WORK", "hamlet", "v001", "007", "BOB", "PROD", "OUTPUT", "w"]
 PLAIN_NAMES = ["bob", "alice", "dagger", "Zed", "o0", "a"]
 VERSION_NUMS = [0, 1, 2, 3, 9, 10, 99, 100, 998, 999]
 ATTR_KEYS = ["comment", "author", "frames", "ok", "tags", "meta"]
